@@ -31,17 +31,22 @@ func c04Trees() (src, dst tm.Tree) {
 	copy(changed[700:], genData(famHash, 400, 41))
 	src = tm.Tree{
 		tm.D("sub", 0o755, tm.Past),
-		tm.File("new", genData(famText, 300, 42), 0o644, tm.Past),
+		tm.File("new", genData(famText, 60, 42), 0o644, tm.Past),
 		tm.File("sub/delta", changed, 0o640, tm.Past),
 		tm.L("link", "new-target"),
 		tm.L("sub/newlink", "fresh"),
-		tm.File("zz-last", genData(famHash, 900, 44), 0o644, tm.Past),
+		tm.File("zz-last", genData(famHash, 90, 44), 0o644, tm.Past),
+		// a directory the transfer itself creates, with new files inside
+		tm.D("newdir", 0o755, tm.Past),
+		tm.File("newdir/fresh", genData(famHash, 80, 47), 0o644, tm.Past),
+		tm.D("newdir/deep", 0o750, tm.Past),
+		tm.File("newdir/deep/x", genData(famText, 30, 48), 0o600, tm.Past),
 	}
 	dst = tm.Tree{
 		tm.D("sub", 0o755, tm.Past),
 		tm.File("sub/delta", basis, 0o640, tm.Past-9),
 		tm.L("link", "old-target"),
-		tm.File("zz-last", genData(famHash, 901, 45), 0o644, tm.Past-9),
+		tm.File("zz-last", genData(famHash, 91, 45), 0o644, tm.Past-9),
 	}
 	return
 }
@@ -248,10 +253,14 @@ func c04BuildScenarios(tier string) core.Source {
 	var cases []c04Scenario
 	for _, arr := range []string{drive.LibPull, drive.DaemonPull, drive.DaemonPush} {
 		// invariant at every scheduler point, connection cut at every point of the default schedule
-		cases = append(cases, c04Scenario{arr: arr, c2s: sched.Inf, s2c: sched.Inf, bound: 1, faults: true, chunking: true})
+		for k := 0; k < 3; k++ {
+			// partial deliveries (1-byte / half transfers) are explored for the library pull and the upload;
+			// the daemon pull differs from the library pull only in its handshake
+			cases = append(cases, c04Scenario{arr: arr, c2s: sched.Inf, s2c: sched.Inf, bound: 1, faults: true, chunking: arr != drive.DaemonPull || tier == "thorough", shard: k, nshards: 3})
+		}
 		// small capacity: the receiver is frozen every 7 bytes, the connection is cut at each of those offsets
-		for k := 0; k < 8; k++ {
-			cases = append(cases, c04Scenario{arr: arr, c2s: 7, s2c: 7, bound: 1, faults: true, shard: k, nshards: 8})
+		for k := 0; k < 12; k++ {
+			cases = append(cases, c04Scenario{arr: arr, c2s: 7, s2c: 7, bound: 1, faults: true, shard: k, nshards: 12})
 		}
 		cases = append(cases, c04Scenario{arr: arr, c2s: 0, s2c: 0, bound: 1, faults: true})
 		cases = append(cases, c04Scenario{arr: arr, c2s: sched.Inf, s2c: sched.Inf, bound: 1, faults: true, treeB: true})
